@@ -5,6 +5,7 @@ package bigbuff
 import (
 	"context"
 	"fmt"
+	"reflect"
 	"sync"
 	"sync/atomic"
 	"time"
@@ -375,4 +376,80 @@ func chanK2Case(h *hctx, id int) {
 	}
 	h.line("K2 chan k2-%d-%d # %s", h.seed, id, parts)
 	h.count("k2_ops", len(recs))
+}
+
+// ---------------------------------------------------------------------------------------------------------------
+// C13WIN: the parent context is cancelled while a Get is INSIDE its critical section, between its c.ctx.Err() check and
+// the receive from the source.  Done is closed under the Channel's mutex (cleanup -> Close), so it cannot close before
+// that Get has left the critical section: a value is never taken from the source once Done is closed.  The window is
+// hit deterministically through a context whose Err() (only ever called under c.mutex) cancels the parent and then
+// watches c.done for a while before answering.
+// ---------------------------------------------------------------------------------------------------------------
+type winCtx struct {
+	context.Context
+	armed        atomic.Bool
+	cancelParent context.CancelFunc
+	done         chan struct{}
+	sawDone      atomic.Bool
+}
+
+func (w *winCtx) Err() error {
+	e := w.Context.Err()
+	if e == nil && w.armed.CompareAndSwap(true, false) {
+		w.cancelParent()
+		select {
+		case <-w.done:
+			w.sawDone.Store(true)
+		case <-time.After(15 * time.Millisecond):
+		}
+	}
+	return e // the answer as of the start of the call
+}
+
+func init() {
+	register("C13WIN", func(h *hctx) {
+		for i := 0; i < h.n; i++ {
+			src := make(chan int, 4)
+			for k := 0; k < 3; k++ {
+				src <- 100*i + k
+			}
+			parent, cancelParent := context.WithCancel(context.Background())
+			// field for field what NewChannel does, with the hook around the Channel's own context
+			c := &Channel{valid: true, source: reflect.ValueOf(src), done: make(chan struct{}), rate: time.Millisecond}
+			inner, cancel := context.WithCancel(parent)
+			w := &winCtx{Context: inner, cancelParent: cancelParent, done: c.done}
+			c.ctx, c.cancel = w, cancel
+			go c.cleanup()
+			pre := h.rng.Intn(3)
+			for k := 0; k < pre; k++ {
+				if _, err := c.Get(context.Background()); err != nil {
+					h.line("MONITOR C13 window case %d: Get %d failed on an open Channel: %v", i, k, err)
+				}
+			}
+			if pre > 0 && h.rng.Intn(2) == 0 {
+				_ = c.Rollback() // the next Get serves a rolled-back value instead of the source
+			}
+			w.armed.Store(true)
+			before := len(src)
+			v, err := c.Get(context.Background())
+			if w.sawDone.Load() && err == nil {
+				h.line("MONITOR C13 window case %d: Get returned %v (source %d -> %d) although Done had been closed while it was still between its context check and the take", i, v, before, len(src))
+			}
+			if err != nil && !w.sawDone.Load() {
+				h.line("MONITOR C13 window case %d: Get failed (%v) although the context was live at its check and Done was not closed", i, err)
+			}
+			select {
+			case <-c.Done():
+			case <-time.After(3 * time.Second):
+				h.line("MONITOR C13 window case %d: Done not closed 3 s after the parent context was cancelled", i)
+			}
+			after := len(src)
+			time.Sleep(200 * time.Microsecond)
+			if _, err := c.Get(context.Background()); err == nil || len(src) != after {
+				h.line("MONITOR C13 window case %d: a Get after Done was closed succeeded or took from the source", i)
+			}
+			cancelParent()
+			h.count("c13_window_cases", 1)
+		}
+	})
 }
